@@ -217,6 +217,8 @@ def symbolic_comprehension(ex, elt, gens, node):
     seq = ex.as_symseq(it)
     if seq is None:
         if ex.concrete_iter(it) is None:
+            if ex.skeleton and type(it).__name__ == 'Unknown':
+                return ('concrete', it)  # skeleton profile: the generic path turns it into an Unknown result
             raise Unsupported('comprehension over an iterable that is neither concrete nor a symbolic sequence')
         # concrete spine: let the generic unrolling handle it, but do not evaluate g.iter twice
         return ('concrete', it)
